@@ -1,8 +1,8 @@
 (* C02 — The document sent is the document written.
    Property theorems only; proofs live in Proofs/OpStrP.v and Proofs/MultilineP.v. *)
 From Coq Require Import List String Ascii Bool Arith.
-From AC Require Import Base.Strs Base.Sexp Gql.Schema Gql.Doc Model.Results Model.OpStr Model.Multiline
-     Proofs.OpStrP Proofs.MultilineP.
+From AC Require Import Base.Strs Base.Sexp Gql.Schema Gql.Doc Gql.Lex Model.Results Model.OpStr Model.Multiline
+     Proofs.OpStrP Proofs.MultilineP Proofs.LexP.
 Import ListNotations.
 Local Open Scope string_scope.
 Local Open Scope list_scope.
@@ -124,21 +124,37 @@ Definition C02_embed_full : Prop := forall lines,
   lines <> [] -> Forall (fun l => has NL l = false) lines ->
   exists v, client_embed lines = EvOk v client_suffix /\ text_of 12 lines v.
 
-(* proved for every statement  <a> = <b> <literals> <suf>  whose prefix holds no quote, every list of
-   lines over ALL bytes, whenever the rewriter's regex matches at most once on the statement *)
-Theorem C02_embed_roundtrip_partial : forall a b suf paren off lines,
-  good_prefix a b -> suf = [] \/ suf = [")"%char] -> lines <> [] ->
+(* every statement  <a> = <b> <literals> <suf>  whose prefix holds no quote and no backslash, every
+   non-empty list of lines over ALL bytes, however often the rewriter's regex matches: when it does not
+   match the statement is left alone and evaluates to the joined lines; when it matches (once or several
+   times) only the first match rewrites anything — every later span ends with an odd run of backslashes
+   before an n, which the rewritten text cannot contain — and the literal evaluates to the embedded text *)
+Theorem C02_embed_roundtrip : forall a b suf paren off lines,
+  good_prefix a b -> has BS (a ++ EQc :: b) = false -> suf = [] \/ suf = [")"%char] -> lines <> [] ->
   Forall (fun l => has NL l = false) lines ->
-  (matches (a ++ EQc :: b) suf lines = 0 ->
-   embed (a ++ EQc :: b) suf paren off lines = EvOk (joined lines) suf) /\
-  (matches (a ++ EQc :: b) suf lines = 1 ->
-   embed (a ++ EQc :: b) suf paren off lines
-   = EvOk (embedded (leading_ws (a ++ EQc :: b) + off) lines) suf).
-Proof. exact embed_roundtrip. Qed.
-Print Assumptions C02_embed_roundtrip_partial.
+  embed (a ++ EQc :: b) suf paren off lines
+  = EvOk (match find_match (stmt (a ++ EQc :: b) suf lines) with
+          | None => joined lines
+          | Some _ => embedded (leading_ws (a ++ EQc :: b) + off) lines
+          end) suf.
+Proof. exact embed_roundtrip_all. Qed.
+Print Assumptions C02_embed_roundtrip.
 
-(* it matches exactly once when no line holds a single quote (backslashes, double quotes, three double
-   quotes, control characters, non-ASCII bytes are all allowed) *)
+Lemma client_good : good_prefix (spaces 8 ++ L "query ") (L " gql(").
+Proof. constructor; reflexivity. Qed.
+
+(* full strength: the generated client method, every list of lines *)
+Theorem C02_embed : C02_embed_full.
+Proof.
+  intros lines Hne Hn.
+  pose proof (embed_roundtrip_all (spaces 8 ++ L "query ") (L " gql(") client_suffix true 4 lines
+                client_good eq_refl (or_intror eq_refl) Hne Hn) as H.
+  cbv zeta in H. eexists. split; [exact H|].
+  destruct (find_match _); [right | left]; reflexivity.
+Qed.
+Print Assumptions C02_embed.
+
+(* the regex matches when no line holds a single quote (and there are two lines) *)
 Theorem C02_one_match_without_quote : forall a b suf lines,
   good_prefix a b -> suf = [] \/ suf = [")"%char] -> 2 <= List.length lines ->
   Forall (fun l => has SQ l = false) lines ->
@@ -146,11 +162,17 @@ Theorem C02_one_match_without_quote : forall a b suf lines,
 Proof. exact one_match_without_quote. Qed.
 Print Assumptions C02_one_match_without_quote.
 
-Lemma client_good : good_prefix (spaces 8 ++ L "query ") (L " gql(").
-Proof. constructor; reflexivity. Qed.
+Lemma embedded_when_match a b suf paren off lines :
+  good_prefix a b -> has BS (a ++ EQc :: b) = false -> suf = [] \/ suf = [")"%char] -> lines <> [] ->
+  Forall (fun l => has NL l = false) lines -> matches (a ++ EQc :: b) suf lines = 1 ->
+  embed (a ++ EQc :: b) suf paren off lines = EvOk (embedded (leading_ws (a ++ EQc :: b) + off) lines) suf.
+Proof.
+  intros Hg Hb Hs Hne Hn Hm. pose proof (embed_roundtrip_all a b suf paren off lines Hg Hb Hs Hne Hn) as H.
+  cbv zeta in H. unfold matches in Hm.
+  destruct (find_match (stmt (a ++ EQc :: b) suf lines)); [exact H | discriminate].
+Qed.
 
-(* the generated client method (8 blanks, query = gql( ... ), offset 4): unguarded for lines without a
-   single quote ... *)
+(* ... so the value is the embedded (indented) text then *)
 Theorem C02_embed_client_without_quote : forall lines,
   2 <= List.length lines -> Forall (fun l => has NL l = false) lines ->
   Forall (fun l => has SQ l = false) lines ->
@@ -158,47 +180,29 @@ Theorem C02_embed_client_without_quote : forall lines,
 Proof.
   intros lines H2 Hn Hq.
   assert (Hne : lines <> []) by (destruct lines; [simpl in H2; inversion H2 | discriminate]).
-  destruct (embed_roundtrip (spaces 8 ++ L "query ") (L " gql(") client_suffix true 4 lines
-              client_good (or_intror eq_refl) Hne Hn) as [_ H1].
-  apply H1. exact (one_match_without_quote _ _ _ _ client_good (or_intror eq_refl) H2 Hq).
+  exact (embedded_when_match (spaces 8 ++ L "query ") (L " gql(") client_suffix true 4 lines
+           client_good eq_refl (or_intror eq_refl) Hne Hn
+           (one_match_without_quote _ _ _ _ client_good (or_intror eq_refl) H2 Hq)).
 Qed.
 Print Assumptions C02_embed_client_without_quote.
 
-(* ... and for all lines under the computable guard "at most one match" *)
-Theorem C02_embed_client_partial : forall lines,
-  lines <> [] -> Forall (fun l => has NL l = false) lines -> client_matches lines <= 1 ->
-  exists v, client_embed lines = EvOk v client_suffix /\ text_of 12 lines v.
+(* the ExtractOperations constant  NAME_GQL = ...  at module level, offset 0: every list of lines *)
+Theorem C02_embed_operations : forall name lines,
+  has EQc name = false -> noq name = true -> has BS name = false -> leading_ws (name ++ L " = ") = 0 ->
+  lines <> [] -> Forall (fun l => has NL l = false) lines ->
+  exists v, embed (name ++ L " = ") [] false 0 lines = EvOk v [] /\ text_of 0 lines v.
 Proof.
-  intros lines Hne Hn Hm.
-  destruct (embed_roundtrip (spaces 8 ++ L "query ") (L " gql(") client_suffix true 4 lines
-              client_good (or_intror eq_refl) Hne Hn) as [H0 H1].
-  unfold client_matches in Hm.
-  change client_prefix with ((spaces 8 ++ L "query ") ++ EQc :: L " gql(") in Hm.
-  destruct (matches ((spaces 8 ++ L "query ") ++ EQc :: L " gql(") client_suffix lines) as [|[|m]] eqn:E.
-  - exists (joined lines). split; [apply H0; reflexivity | left; reflexivity].
-  - exists (embedded 12 lines). split; [apply H1; reflexivity | right; reflexivity].
-  - exfalso. inversion Hm as [|? Hm']. inversion Hm'.
-Qed.
-Print Assumptions C02_embed_client_partial.
-
-(* the ExtractOperations constant  NAME_GQL = ...  at module level, offset 0 *)
-Theorem C02_embed_operations_without_quote : forall name lines,
-  has EQc name = false -> noq name = true -> leading_ws (name ++ L " = ") = 0 ->
-  2 <= List.length lines -> Forall (fun l => has NL l = false) lines ->
-  Forall (fun l => has SQ l = false) lines ->
-  embed (name ++ L " = ") [] false 0 lines = EvOk (embedded 0 lines) [].
-Proof.
-  intros name lines He Hq Hw H2 Hn Hs.
-  assert (Hne : lines <> []) by (destruct lines; [simpl in H2; inversion H2 | discriminate]).
+  intros name lines He Hq Hb Hw Hne Hn.
   assert (G : good_prefix (name ++ [SP]) [SP]).
   { constructor; [rewrite has_app, He; reflexivity | unfold noq in *; rewrite forallb_app, Hq; reflexivity
                   | reflexivity]. }
   assert (E : (name ++ [SP]) ++ EQc :: [SP] = name ++ L " = ") by (rewrite <- app_assoc; reflexivity).
-  destruct (embed_roundtrip (name ++ [SP]) [SP] [] false 0 lines G (or_introl eq_refl) Hne Hn) as [_ H1].
-  cbv zeta in H1. rewrite E, Hw in H1. apply H1.
-  pose proof (one_match_without_quote _ _ _ _ G (or_introl eq_refl) H2 Hs) as M. rewrite E in M. exact M.
+  assert (B : has BS ((name ++ [SP]) ++ EQc :: [SP]) = false) by (rewrite E, has_app, Hb; reflexivity).
+  pose proof (embed_roundtrip_all (name ++ [SP]) [SP] [] false 0 lines G B (or_introl eq_refl) Hne Hn) as H.
+  cbv zeta in H. rewrite E, Hw in H. eexists. split; [exact H|].
+  destruct (find_match _); [right | left]; reflexivity.
 Qed.
-Print Assumptions C02_embed_operations_without_quote.
+Print Assumptions C02_embed_operations.
 
 Example C02_embed_hypotheses_satisfiable :
   let lines := [L "query A($v: Int = 3) {"; L "  echo(s: ""a \n # b = c\\ """""")"; L ""; L "}"] in
@@ -225,8 +229,7 @@ Example C02_regression_block :
   client_embed lines = EvOk (embedded 12 lines) client_suffix.
 Proof. vm_compute. reflexivity. Qed.
 
-(* a statement on which the regex matches twice (outside the guard of the theorem): the model still
-   round-trips; no counterexample to C02_embed_full is known *)
+(* a statement on which the regex matches twice (regression of the case that used to be outside the theorem) *)
 Example C02_two_matches_still_round_trip :
   let lines := [L ""; L """'="; L ""; L ""] in
   client_matches lines = 2 /\ client_embed lines = EvOk (embedded 12 lines) client_suffix.
@@ -249,4 +252,51 @@ Print Assumptions C02_indent_uniform.
 Example C02_regression_blank_line_of_block_string :
   let lines := [L "query A {"; L "  echo(s: """""""; L "  a"; L "     "; L "  b"; L "  """""")"; L "}"] in
   client_embed lines = EvOk (uniform 12 lines) client_suffix.
+Proof. vm_compute. reflexivity. Qed.
+
+(* ================================================================= E. the same token stream *)
+(* Gql/Lex.v: punctuators, the spread, words, strings (raw), block strings (raw); blanks, line terminators,
+   commas, comments ignored.  What the rewriter adds — a leading line feed, blanks before the lines and at
+   the end — does not change the token stream, for lines that start no block string (inside a block
+   string the indentation is content: C02_indent_uniform is the statement there). *)
+Definition starts_no_block (l : chars) : bool := LexP.no_nl l && LexP.nodq3 l.
+
+Lemma embedded_laid_out k lines :
+  embedded k lines = LexP.laid_out (fun l => match l with [] => 0 | _ => k end) k lines.
+Proof.
+  unfold embedded, LexP.laid_out, indented. f_equal. f_equal.
+  induction lines as [|l ls IH]; [reflexivity|]. cbn [flat_map]. rewrite IH. destruct l; reflexivity.
+Qed.
+
+Theorem C02_tokens_preserved : forall k lines,
+  Forall (fun l => starts_no_block l = true) lines ->
+  Lex.tokens (embedded k lines) = Lex.tokens (joined lines).
+Proof.
+  intros k lines H. rewrite embedded_laid_out. apply LexP.layout_ignored.
+  eapply Forall_impl; [|exact H]. intros l Hl. apply andb_true_iff in Hl. exact Hl.
+Qed.
+Print Assumptions C02_tokens_preserved.
+
+(* end to end for the generated method: whatever the lines (no block string started), the literal evaluates
+   to a text with the token stream of the operation string *)
+Theorem C02_embed_same_tokens : forall lines,
+  lines <> [] -> Forall (fun l => starts_no_block l = true) lines ->
+  exists v, client_embed lines = EvOk v client_suffix /\ Lex.tokens v = Lex.tokens (joined lines).
+Proof.
+  intros lines Hne H.
+  assert (Hn : Forall (fun l => has NL l = false) lines).
+  { eapply Forall_impl; [|exact H]. intros l Hl. apply andb_true_iff in Hl as [Hl _].
+    apply has_false. intros x Hx E. subst. unfold LexP.no_nl in Hl. rewrite forallb_forall in Hl.
+    specialize (Hl _ Hx). discriminate. }
+  destruct (C02_embed lines Hne Hn) as (v & Ev & [-> | ->]).
+  - exists (joined lines). auto.
+  - exists (embedded 12 lines). split; [exact Ev | apply C02_tokens_preserved; exact H].
+Qed.
+Print Assumptions C02_embed_same_tokens.
+
+Example C02_tokens_example :
+  Lex.tokens (L "query A($v: Int = 3) { ...F  echo(s: ""a # \"" b"", n: -1.5e3) # c") =
+  Some [TW (L "query"); TW (L "A"); TP "("; TP "$"; TW (L "v"); TP ":"; TW (L "Int"); TP "="; TW (L "3"); TP ")";
+        TP "{"; TSpread; TW (L "F"); TW (L "echo"); TP "("; TW (L "s"); TP ":"; TS (L "a # \"" b");
+        TW (L "n"); TP ":"; TW (L "-1.5e3"); TP ")"]%char.
 Proof. vm_compute. reflexivity. Qed.
